@@ -33,6 +33,9 @@ type RunConfig struct {
 	AccessLog      bool
 	Trace          bool
 	UsePool        bool // take solvers from the global pool (one per path) instead of one per worker
+	TraceThread int  // trace mode: explore the event tree of this thread (0 = main)
+	TraceOn     bool
+	MaxEvents   int
 }
 
 var pools = map[string]chan *smt.Solver{}
@@ -116,6 +119,8 @@ type RunResult struct {
 	Truncated   bool
 	AccessLogs  []*AccessLog
 	Retried     string
+	Traces      [][]TraceEvent
+	TraceMeta   *Tracer
 }
 
 func (ex *Exec) init(pr *Program, p *Path, cfg *RunConfig) {
@@ -145,6 +150,18 @@ func (ex *Exec) init(pr *Program, p *Path, cfg *RunConfig) {
 		ex.accessLog = &AccessLog{}
 	}
 	ex.initSched()
+	if cfg.TraceOn {
+		me := cfg.MaxEvents
+		if me == 0 {
+			me = 200
+		}
+		ex.tr = newTracer(cfg.TraceThread, me)
+		p.onDecide = func(t *smt.Term) {
+			if ex.tr.recording && !t.IsConst() {
+				ex.tr.pre = append(ex.tr.pre, t)
+			}
+		}
+	}
 }
 
 // runPath executes the harness once along the given decision prefix.
@@ -186,6 +203,11 @@ func runPath(pr *Program, fn *ssa.Function, s *smt.Solver, prefix []int, cfg *Ru
 				endReason = "abort"
 				p.event(Event{Kind: EvAbort, Label: "unsupported", Detail: r.reason})
 			case *goPanic:
+				if ex.tr != nil && ex.tr.recording {
+					ex.tr.emit(ex, TraceEvent{Kind: "panic", Text: r.Msg})
+					endReason = "trace-done"
+					break
+				}
 				endReason = "uncaught-panic"
 				safeFail("uncaught-panic", r.Msg)
 			default:
@@ -202,6 +224,9 @@ func runPath(pr *Program, fn *ssa.Function, s *smt.Solver, prefix []int, cfg *Ru
 			args[i] = smt.BVC(64, uint64(int64(v)))
 		}
 		ex.call(nil, fn, args)
+		if ex.tr != nil && ex.tr.recording {
+			ex.tr.emit(ex, TraceEvent{Kind: "done"})
+		}
 		if ex.fatalEnd != nil {
 			panic(ex.fatalEnd)
 		}
@@ -341,6 +366,12 @@ func (pr *Program) Run(cfg RunConfig) *RunResult {
 			}
 			if ex.accessLog != nil {
 				res.AccessLogs = append(res.AccessLogs, ex.accessLog)
+			}
+			if ex.tr != nil && (reason == "trace-done" || reason == "return") && len(ex.tr.events) > 0 {
+				res.Traces = append(res.Traces, ex.tr.events)
+				if res.TraceMeta == nil {
+					res.TraceMeta = ex.tr
+				}
 			}
 			if cfg.MaxPaths > 0 && res.Paths >= cfg.MaxPaths && len(queue) > 0 {
 				res.Truncated = true
